@@ -7,6 +7,7 @@ package main
 // Lock state is tracked per path, keyed by the receiver expression text of the mutex ("s.mu").
 
 import (
+	"fmt"
 	"strings"
 	"go/ast"
 	"go/token"
@@ -76,3 +77,70 @@ func (st *State) guardCheck(structT types.Type, field string, ref Val, write boo
 }
 
 var _ = ast.Unparen
+
+
+// ---------------------------------------------------------------------------------------------------------------
+// Rely-guarantee mode (functions with rely / guarantee / sharedinv clauses).
+// Every call into sync/atomic is an atomic step of this goroutine. Between two of its steps the other goroutines may
+// take any number of steps: before each atomic step the whole shared state (every heap) is replaced by an arbitrary
+// one related to the previous one by the rely relations (which must be reflexive and transitive: they are written
+// as "never changes once set" / "only grows" facts) and satisfying the shared invariants. Right after the step and
+// the ghost updates attached to it (anchor after-callN), the step as a whole (state before -> state after) must
+// satisfy every guarantee clause and re-establish every shared invariant. Soundness is the standard rely-guarantee
+// rule: each guarantee must imply the rely of every other goroutine running the same code (argued in DESIGN.md).
+// Local variables are never havocked; plain (non-atomic) accesses to shared memory are not interference points.
+// ---------------------------------------------------------------------------------------------------------------
+
+func (fc *FuncCtx) isRG() bool {
+	c := fc.Contract
+	return c != nil && (len(c.Rely) > 0 || len(c.Guarantee) > 0 || len(c.SharedInv) > 0)
+}
+
+func (st *State) rgAssumeInv(pos token.Pos, what string) {
+	fc := st.fc
+	for _, c := range fc.Contract.SharedInv {
+		env := fc.newSpecEnv(st, nil, fc.entrySnap, pos, fc.Name+"/sharedinv")
+		st.assume(env.evalBool(c.Expr))
+	}
+}
+
+// rgStabilize models the interference of the environment before an atomic step.
+func (st *State) rgStabilize(pos token.Pos) {
+	fc := st.fc
+	old := st.snapshot(nil)
+	var names []string
+	for n := range st.heap {
+		names = append(names, n)
+	}
+	sortStrings(names)
+	for _, n := range names {
+		st.heapHavoc(n, fc.heapSorts[n])
+	}
+	st.rgLate = true
+	for _, c := range fc.Contract.Rely {
+		env := fc.newSpecEnv(st, nil, old, pos, fc.Name+"/rely")
+		st.assume(env.evalBool(c.Expr))
+	}
+	st.rgAssumeInv(pos, "stabilize")
+	st.rgPre = st.snapshot(nil)
+}
+
+// rgCheckStep: the pending atomic step (with its ghost updates) satisfies the guarantee and the shared invariant.
+func (st *State) rgCheckStep(anchor string, pos token.Pos) {
+	fc := st.fc
+	if st.rgPre == nil {
+		return
+	}
+	pre := st.rgPre
+	st.rgPre = nil
+	for i, c := range fc.Contract.Guarantee {
+		env := fc.newSpecEnv(st, nil, pre, pos, fc.Name+"/guarantee")
+		st.oblige("guarantee", fmt.Sprintf("%s/guarantee%d", anchor, i+1), env.evalBool(c.Expr), pos)
+	}
+	for i, c := range fc.Contract.SharedInv {
+		env := fc.newSpecEnv(st, nil, pre, pos, fc.Name+"/sharedinv")
+		g := env.evalBool(c.Expr)
+		st.oblige("sharedinv", fmt.Sprintf("%s/sharedinv%d", anchor, i+1), g, pos)
+		st.assume(g)
+	}
+}
